@@ -330,3 +330,11 @@ def replay(ctx: Ctx, rec):
         finally:
             loop.close()
             shutil.rmtree(root, ignore_errors=True)
+
+LEVEL_TEXT = ("Lean 4 theorems (unbounded in byte strings, ranges, write sets, completion orders and call sequences): "
+              "read-after-write, ranged read = exact slice, missing path raises, writes to distinct paths commute, and "
+              "MemoryviewStream refines io.BytesIO for every call sequence. The model is tied to the real FSStoragePlugin / "
+              "MemoryviewStream by differential runs on every check; the property oracle is also evaluated on the real code.")
+LEVEL_NOTE = ("Trusted: Lean kernel (+propext, Classical.choice, Quot.sound), the hand model lean/TsModel/Storage.lean, "
+              "the harness; aiofiles/OS behaviour and CPython's BytesIO are assumed, sampled not proved.")
+TECHNIQUE = "Lean 4 proof over executable model + differential correspondence with the real plugin/stream"
